@@ -530,7 +530,10 @@ def check_real(vendor, rules, extra_flags, old, new, report):
     paths = fmt.cmd_paths(pt)
     sent = [(len(p) - 1, p[-1]) for p in paths.keys()]
     if shown != sent:
-        report({"kind": "shown-vs-sent", "vendor": vendor, "part": "R", "force_commit": bool(extra_flags)}, case,
+        sig = {"kind": "shown-vs-sent", "vendor": vendor, "part": "R", "force_commit": "%force_commit" in extra_flags}
+        if extra_flags and extra_flags != "%force_commit":
+            sig["flags"] = extra_flags
+        report(sig, case,
                "rulebook=%r patch text=%r cmd_paths=%r" % (text, shown, sent))
         return len(sent)
     if sent:
@@ -804,6 +807,9 @@ def run_block(block, ctx):
         from mc.ref.rb import Rule
         work.append(([Rule("a *"), Rule("b *")], "%force_commit"))
         work.append(([Rule("a *", [Rule("c *")])], "%force_commit"))
+        # %parent: a row of the rule opens a block even when nothing is written inside it
+        work.append(([Rule("a *"), Rule("b *")], "%parent"))
+        work.append(([Rule("a *", [Rule("c *")]), Rule("b")], "%parent"))
         for j, (rules, extra) in enumerate(work):
             if j % 16 != block["i"]:
                 continue
